@@ -183,19 +183,21 @@ Lemma sub_drop_eq p l : sub (drop_eq p l) l.
 Proof. revert p; induction l; simpl; auto. intros p. destruct (veq _ _); auto. Qed.
 Lemma sub_keep_last l : sub (keep_last l) l.
 Proof. induction l; simpl; auto. destruct (existsb _ _); auto. Qed.
-Lemma sub_drop_repeats l : sub (drop_repeats l) l.
+Lemma sub_trans {A} (l1 l2 l3 : list A) : sub l1 l2 -> sub l2 l3 -> sub l1 l3.
 Proof.
-  unfold drop_repeats. generalize (sub_keep_last (drop_eq None l)) (sub_drop_eq None l).
-  generalize (keep_last (drop_eq None l)) (drop_eq None l). intros a b H1 H2.
-  revert a H1. induction H2; intros a H1; auto.
-  - inversion H1; subst; auto.
-  - inversion H1; subst; auto.
+  intros H1 H2. revert l1 H1. induction H2; intros l0 H1; auto.
+  inversion H1; subst; auto.
 Qed.
+Lemma sub_drop_repeats l : sub (drop_repeats l) l.
+Proof. eapply sub_trans; [apply sub_keep_last | apply sub_drop_eq]. Qed.
+Lemma lastv_cons p a l : lastv p (a :: l) = lastv (upd p (rv a)) l.
+Proof. reflexivity. Qed.
 Lemma drop_eq_lastv p l : lastv p (drop_eq p l) = lastv p l.
 Proof.
-  revert p; induction l; simpl; auto. intros p. destruct (veq (upd p (rv a)) p) eqn:E.
-  - apply veq_eq in E. change (lastv p (a :: l)) with (lastv (upd p (rv a)) l). rewrite <- IHl. rewrite E. rewrite E at 2. reflexivity.
-  - change (lastv p (a :: l)) with (lastv (upd p (rv a)) l). rewrite <- IHl. reflexivity.
+  revert p; induction l; auto. intros p. cbn [drop_eq]. rewrite (lastv_cons p a l).
+  destruct (veq (upd p (rv a)) p) eqn:E.
+  - apply veq_eq in E. rewrite E. apply IHl.
+  - rewrite lastv_cons. apply IHl.
 Qed.
 Lemma drop_eq_valid p l : p <> None -> Forall valid (drop_eq p l).
 Proof.
@@ -300,4 +302,492 @@ Lemma same_reads_app a b n : same_reads a b -> same_reads (a ++ n) (b ++ n).
 Proof.
   intros H T. destruct (H T) as [A1 A2]. rewrite !filter_app, !lastv_app, A2. split; auto.
   split; intros HH; apply app_eq_nil in HH; destruct HH as [H1 H2]; rewrite H2, app_nil_r; tauto.
+Qed.
+
+(* ------------------------------------------------------------ frames: columns per date *)
+Definition col (d : Z) (l : list row) : list row := filter (on_date d) l.
+
+Lemma in_map_rd_iff d l : In d (map rd l) <-> col d l <> [].
+Proof.
+  unfold col. split.
+  - intros H. apply in_map_iff in H. destruct H as [r [Hr Hin]]. intros Hn.
+    rewrite filter_nil_iff in Hn. specialize (Hn r Hin). unfold on_date in Hn. lia.
+  - intros H. destruct (filter (on_date d) l) as [|r q] eqn:E; [congruence|].
+    assert (Hr : In r (filter (on_date d) l)) by (rewrite E; left; auto).
+    apply filter_In in Hr. destruct Hr as [Hin Hd]. apply in_map_iff. exists r. unfold on_date in Hd. split; [lia|auto].
+Qed.
+Lemma flat_map_col_notin d (g : Z -> list row) ds :
+  (forall d', Forall (fun r => rd r = d') (g d')) -> ~ In d ds -> col d (flat_map g ds) = [].
+Proof.
+  intros Hg. induction ds as [|a ds IH]; simpl; auto. intros Hn. unfold col in *. rewrite filter_app, IH by tauto.
+  rewrite app_nil_r. apply filter_false. eapply Forall_impl; [|apply (Hg a)]. simpl. intros r Hr.
+  unfold on_date. assert (a <> d) by tauto. lia.
+Qed.
+Lemma flat_map_col_in d (g : Z -> list row) ds :
+  (forall d', Forall (fun r => rd r = d') (g d')) -> zs ds -> In d ds -> col d (flat_map g ds) = g d.
+Proof.
+  intros Hg. induction ds as [|a ds IH]; simpl; [tauto|]. intros [HF Hz] [->|Hin].
+  - unfold col. rewrite filter_app. fold (col d (flat_map g ds)). rewrite flat_map_col_notin; auto.
+    + rewrite app_nil_r. apply filter_true. eapply Forall_impl; [|apply (Hg d)]. simpl. intros r Hr. unfold on_date. lia.
+    + intros Hin. rewrite Forall_forall in HF. apply HF in Hin. lia.
+  - unfold col. rewrite filter_app. fold (col d (flat_map g ds)). rewrite IH; auto.
+    rewrite filter_false; auto. eapply Forall_impl; [|apply (Hg a)]. simpl. intros r Hr. unfold on_date.
+    rewrite Forall_forall in HF. apply HF in Hin. lia.
+Qed.
+Lemma col_merge_frames d l : col d (merge_frames l) = drop_repeats (ssort (col d l)).
+Proof.
+  unfold merge_frames.
+  set (g := fun d' => drop_repeats (filter (on_date d') (ssort l))).
+  assert (Hg : forall d', Forall (fun r => rd r = d') (g d')).
+  { intros d'. unfold g. apply (sub_Forall _ _ _ (sub_drop_repeats _)). apply Forall_forall.
+    intros x Hx. apply filter_In in Hx. unfold on_date in Hx. lia. }
+  change (col d (flat_map g (sort_uniq (map rd (ssort l)))) = drop_repeats (ssort (col d l))).
+  unfold col at 2. rewrite <- filter_ssort.
+  destruct (in_dec Z.eq_dec d (sort_uniq (map rd (ssort l)))) as [Hin|Hn].
+  - rewrite flat_map_col_in; auto. apply sort_uniq_zs.
+  - rewrite flat_map_col_notin; auto. rewrite sort_uniq_In, in_map_rd_iff in Hn.
+    unfold col in Hn. destruct (filter (on_date d) (ssort l)); [reflexivity|]. exfalso. apply Hn. discriminate.
+Qed.
+Lemma drop_repeats_short l : (length l <= 1)%nat -> drop_repeats (ssort l) = l.
+Proof.
+  destruct l as [|r [|y l]]; simpl; intros H; try lia; auto.
+  unfold drop_repeats. rewrite drop_eq_None_cons. reflexivity.
+Qed.
+Lemma col_bi_merge d old new : (length (col d new) <= 1)%nat ->
+  col d (bi_merge old new) = drop_repeats (ssort (col d old ++ col d new)).
+Proof.
+  intros Hl. unfold bi_merge. destruct old as [|o old].
+  - simpl. symmetry. apply drop_repeats_short; auto.
+  - rewrite col_merge_frames. unfold col. rewrite filter_app. reflexivity.
+Qed.
+Lemma In_bi_merge r old new : In r (bi_merge old new) -> In r (old ++ new).
+Proof.
+  unfold bi_merge. destruct old as [|o old]; auto. unfold merge_frames. intros H.
+  apply in_flat_map in H. destruct H as [d [_ H]]. apply (sub_In _ _ _ (sub_drop_repeats _)) in H.
+  apply filter_In in H. destruct H as [H _]. apply (proj1 (ssort_In _ _)) in H. exact H.
+Qed.
+
+Lemma Bi_stamp v : Forall (fun r => rs r = fst v) (Bi v).
+Proof. unfold Bi. apply Forall_forall. intros r Hr. apply in_map_iff in Hr. destruct Hr as [p [<- _]]. reflexivity. Qed.
+Lemma col_Bi_len d v : NoDup (map fst (snd v)) -> (length (col d (Bi v)) <= 1)%nat.
+Proof.
+  unfold Bi. generalize (fst v) as s. induction (snd v) as [|p l IH]; simpl; intros s Hnd; auto.
+  inversion Hnd; subst. unfold on_date at 1. unfold rd at 1. simpl.
+  destruct (fst p =? d) eqn:E.
+  - assert (Hnil : col d (map (fun p0 => (fst p0, s, snd p0)) l) = []).
+    { unfold col. apply filter_nil_iff. intros x Hx. apply in_map_iff in Hx. destruct Hx as [q [<- Hq]].
+      unfold on_date, rd; simpl. assert (fst q <> fst p); [|lia]. intros Heq. apply H1. rewrite <- Heq. apply in_map; auto. }
+    rewrite Hnil. simpl; lia.
+  - apply IH; auto.
+Qed.
+
+(* ------------------------------------------------------------ reading a column *)
+Lemma nth_what_last l : l <> [] -> nth_what (-1) l = last l row0.
+Proof.
+  intros Hne. unfold nth_what. destruct (0 <=? -1) eqn:E01; [lia|]. clear E01.
+  assert (0 < Z.of_nat (length l)) by (destruct l; [congruence|cbn [length]; lia]).
+  replace (Z.of_nat (length l) + Z.max (-1) (- Z.of_nat (length l))) with (Z.of_nat (length l) - 1) by lia.
+  rewrite last_nth. f_equal. lia.
+Qed.
+Lemma nth_what_first l : l <> [] -> nth_what 0 l = hd row0 l.
+Proof.
+  intros Hne. unfold nth_what. destruct (0 <=? 0) eqn:E01; [|lia]. clear E01.
+  assert (0 < Z.of_nat (length l)) by (destruct l; [congruence|cbn [length]; lia]).
+  replace (Z.min 0 (Z.of_nat (length l) - 1)) with 0 by lia. destruct l; [congruence|reflexivity].
+Qed.
+Lemma fle_wsorted T c : wsorted c -> ssort (filter (le_stamp T) c) = filter (le_stamp T) c.
+Proof. intros H. apply ssort_id. eapply sub_wsorted; [apply sub_filter|auto]. Qed.
+
+(* as-of-T read of a clean column c that reads like the (weakly sorted) publication list p *)
+Definition firstval (p : list row) : option Z :=
+  match p with [] => None | r :: _ => lastv None (filter (le_stamp (rs r)) p) end.
+Lemma col_read_last T c p : colinv c -> same_reads c p -> filter (le_stamp T) c <> [] ->
+  rv (nth_what (-1) (ssort (filter (le_stamp T) c))) = lastv None (filter (le_stamp T) p).
+Proof.
+  intros [Hs Hn] Hr Hne. rewrite fle_wsorted by (apply ssorted_wsorted; auto).
+  rewrite nth_what_last by auto. rewrite <- (proj2 (Hr T)). symmetry. apply lastv_nanprefix; auto.
+  eapply sub_nanprefix; [apply sub_filter|auto].
+Qed.
+Lemma wsorted_hd_min r p x : wsorted (r :: p) -> In x (r :: p) -> rs r <= rs x.
+Proof. simpl. intros [H _] [->|Hx]; [lia|]. rewrite Forall_forall in H; auto. Qed.
+Lemma fle_ne_witness T l : filter (le_stamp T) l <> [] -> exists x, In x l /\ rs x <= T.
+Proof.
+  destruct (filter (le_stamp T) l) as [|x q] eqn:E; [congruence|]. intros _.
+  assert (Hx : In x (filter (le_stamp T) l)) by (rewrite E; left; auto).
+  apply filter_In in Hx. exists x. unfold le_stamp in Hx. split; [tauto|lia].
+Qed.
+Lemma fle_ne_intro T l x : In x l -> rs x <= T -> filter (le_stamp T) l <> [].
+Proof.
+  intros Hin Hle Hn. rewrite filter_nil_iff in Hn. specialize (Hn x Hin). unfold le_stamp in Hn. lia.
+Qed.
+Lemma ssorted_fle_hd r c : ssorted (r :: c) -> filter (le_stamp (rs r)) (r :: c) = [r].
+Proof.
+  simpl. intros [HF _]. unfold le_stamp at 1. rewrite Z.leb_refl. f_equal. apply filter_false.
+  eapply Forall_impl; [|exact HF]. unfold le_stamp; simpl; intros; lia.
+Qed.
+Lemma col_read_first T c p : colinv c -> same_reads c p -> wsorted p -> filter (le_stamp T) c <> [] ->
+  rv (nth_what 0 (ssort (filter (le_stamp T) c))) = firstval p.
+Proof.
+  intros [Hs Hn] Hr Hp Hne. rewrite fle_wsorted by (apply ssorted_wsorted; auto).
+  rewrite nth_what_first by auto.
+  destruct c as [|r c]; [simpl in Hne; congruence|].
+  assert (Hw := ssorted_wsorted _ Hs).
+  assert (HrT : rs r <= T).
+  { destruct (fle_ne_witness _ _ Hne) as [x [Hx Hle]]. pose proof (wsorted_hd_min r c x Hw Hx). lia. }
+  cbn [filter]. unfold le_stamp at 1. replace (rs r <=? T) with true by lia. cbn [hd].
+  assert (Hc1 : filter (le_stamp (rs r)) (r :: c) <> []) by (rewrite ssorted_fle_hd by auto; discriminate).
+  destruct p as [|r0 p].
+  - exfalso. apply Hc1. apply (proj1 (Hr (rs r))). reflexivity.
+  - unfold firstval.
+    assert (rs r0 = rs r).
+    { assert (A : filter (le_stamp (rs r)) (r0 :: p) <> []) by (intros HH; apply Hc1; apply (proj1 (Hr (rs r))); auto).
+      destruct (fle_ne_witness _ _ A) as [x [Hx Hle]]. pose proof (wsorted_hd_min r0 p x Hp Hx).
+      assert (B : filter (le_stamp (rs r0)) (r :: c) <> []).
+      { intros HH. apply (proj1 (Hr (rs r0))) in HH. revert HH. apply (fle_ne_intro _ _ r0); [left; auto|lia]. }
+      destruct (fle_ne_witness _ _ B) as [y [Hy Hle2]]. pose proof (wsorted_hd_min r c y Hw Hy). lia. }
+    rewrite H. rewrite <- (proj2 (Hr (rs r))). rewrite ssorted_fle_hd by auto.
+    unfold lastv; simpl. destruct (rv r); auto.
+Qed.
+
+(* ------------------------------------------------------------ bi_read through columns *)
+Lemma sort_uniq_ext l1 l2 : (forall x, In x l1 <-> In x l2) -> sort_uniq l1 = sort_uniq l2.
+Proof. intros H. apply zs_unique; try apply sort_uniq_zs. intros x. rewrite !sort_uniq_In. auto. Qed.
+Lemma bi_read_cols st T n :
+  bi_read st (Some T) n =
+  map (fun d => (d, rv (nth_what n (ssort (filter (le_stamp T) (col d st))))))
+      (sort_uniq (map rd (filter (le_stamp T) st))).
+Proof.
+  unfold bi_read. rewrite (sort_uniq_ext (map rd (ssort (filter (le_stamp T) st))) (map rd (filter (le_stamp T) st))).
+  - apply map_ext. intros d. rewrite filter_ssort. unfold col. rewrite filter_comm. reflexivity.
+  - intros x. rewrite !in_map_iff. split; intros [r [Hr Hin]]; exists r; (split; [auto|]); apply ssort_In; auto.
+Qed.
+Definition has (T : Z) (p : Z -> list row) (d : Z) : bool :=
+  match filter (le_stamp T) (p d) with [] => false | _ => true end.
+Lemma has_true T p d : has T p d = true <-> filter (le_stamp T) (p d) <> [].
+Proof. unfold has. destruct (filter _ _); split; congruence. Qed.
+
+(* general reading theorem: a store whose columns are clean and read like p *)
+Lemma read_dates st T (p : Z -> list row) (ds : list Z) :
+  (forall d, same_reads (col d st) (p d)) -> zs ds -> (forall d, p d <> [] -> In d ds) ->
+  sort_uniq (map rd (filter (le_stamp T) st)) = filter (has T p) ds.
+Proof.
+  intros Hr Hz Hds. apply zs_unique.
+  - apply sort_uniq_zs.
+  - eapply sub_zs; [apply sub_filter|auto].
+  - intros d. rewrite sort_uniq_In, in_map_rd_iff, filter_In, has_true. unfold col. rewrite filter_comm.
+    fold (col d st). pose proof (proj1 (Hr d T)) as HH. split.
+    + intros H. split; [|tauto]. apply Hds. intros Hn. apply H. apply HH. rewrite Hn. reflexivity.
+    + tauto.
+Qed.
+Lemma read_general st T (p : Z -> list row) ds :
+  (forall d, colinv (col d st)) -> (forall d, same_reads (col d st) (p d)) -> (forall d, wsorted (p d)) ->
+  zs ds -> (forall d, p d <> [] -> In d ds) ->
+  bi_read st (Some T) (-1) = map (fun d => (d, lastv None (filter (le_stamp T) (p d)))) (filter (has T p) ds) /\
+  bi_read st (Some T) 0 = map (fun d => (d, firstval (p d))) (filter (has T p) ds).
+Proof.
+  intros Hc Hr Hp Hz Hds. rewrite !bi_read_cols. rewrite (read_dates st T p ds) by auto.
+  split; apply map_ext_in; intros d Hd; apply filter_In in Hd; destruct Hd as [_ Hd]; apply has_true in Hd;
+    f_equal; [apply col_read_last|apply col_read_first]; auto; intros Hn; apply Hd; apply (proj1 (Hr d T)); auto.
+Qed.
+
+(* ------------------------------------------------------------ histories *)
+Lemma store_snoc h v : store_of (h ++ [v]) = bi_merge (store_of h) (Bi v).
+Proof. unfold store_of. rewrite fold_left_app. reflexivity. Qed.
+Lemma pubs_snoc h v d : pubs (h ++ [v]) d = pubs h d ++ col d (Bi v).
+Proof. unfold pubs, col. rewrite flat_map_app, filter_app. simpl. rewrite app_nil_r. reflexivity. Qed.
+Lemma nondecr_snoc h v : stamps_nondecreasing (h ++ [v]) ->
+  stamps_nondecreasing h /\ Forall (fun w => fst w <= fst v) h.
+Proof.
+  induction h as [|a h IH]; simpl; auto. intros [H1 H2]. destruct (IH H2) as [A B].
+  apply Forall_app in H1. destruct H1 as [H1 H3]. inversion H3; subst. repeat split; auto.
+Qed.
+Lemma wsorted_app a b : wsorted a -> wsorted b -> (forall x y, In x a -> In y b -> rs x <= rs y) -> wsorted (a ++ b).
+Proof.
+  induction a as [|r a IH]; simpl; auto. intros [H1 H2] Hb Hx. split.
+  - apply Forall_app. split; auto. apply Forall_forall. intros y Hy. apply Hx; auto.
+  - apply IH; auto.
+Qed.
+Lemma const_stamp_wsorted s l : Forall (fun r => rs r = s) l -> wsorted l.
+Proof. induction 1; simpl; auto. split; auto. eapply Forall_impl; [|exact H0]. simpl; intros; lia. Qed.
+Lemma hist_rows_le h s : Forall (fun w => fst w <= s) h -> forall r, In r (flat_map Bi h) -> rs r <= s.
+Proof.
+  intros HF r Hr. apply in_flat_map in Hr. destruct Hr as [w [Hw Hr]].
+  rewrite Forall_forall in HF. apply HF in Hw. pose proof (Bi_stamp w) as Hs. rewrite Forall_forall in Hs.
+  rewrite (Hs r Hr). auto.
+Qed.
+Lemma hist_wsorted h : stamps_nondecreasing h -> wsorted (flat_map Bi h).
+Proof.
+  induction h as [|v h IH]; simpl; auto. intros [H1 H2]. apply wsorted_app; auto.
+  - apply (const_stamp_wsorted (fst v)). apply Bi_stamp.
+  - intros x y Hx Hy. pose proof (Bi_stamp v) as Hs. rewrite Forall_forall in Hs. rewrite (Hs x Hx).
+    apply in_flat_map in Hy. destruct Hy as [w [Hw Hy]]. pose proof (Bi_stamp w) as Hs2. rewrite Forall_forall in Hs2.
+    rewrite (Hs2 y Hy). rewrite Forall_forall in H1. auto.
+Qed.
+Lemma pubs_wsorted h d : stamps_nondecreasing h -> wsorted (pubs h d).
+Proof. intros H. eapply sub_wsorted; [apply sub_filter|apply hist_wsorted; auto]. Qed.
+
+(* the invariant, by induction over the publication history *)
+Theorem store_invariant h : stamps_nondecreasing h -> series_ok h ->
+  (forall d, colinv (col d (store_of h)) /\ same_reads (col d (store_of h)) (pubs h d)) /\
+  (forall r, In r (store_of h) -> In r (flat_map Bi h)).
+Proof.
+  induction h as [|v h IH] using rev_ind; intros Hs Hok.
+  - split; [|simpl; tauto]. intros d. unfold store_of, pubs, col; simpl. repeat split; simpl; auto.
+  - apply nondecr_snoc in Hs. destruct Hs as [Hs Hle]. unfold series_ok in Hok. apply Forall_app in Hok.
+    destruct Hok as [Hok Hv]. inversion Hv; subst. clear Hv. destruct (IH Hs Hok) as [IH1 IH2]. clear IH.
+    rewrite store_snoc. split.
+    + intros d. destruct (IH1 d) as [[Hss Hnp] Hsr].
+      rewrite col_bi_merge by (apply col_Bi_len; auto). rewrite pubs_snoc.
+      assert (Hw : wsorted (col d (store_of h) ++ col d (Bi v))).
+      { apply wsorted_app.
+        - apply ssorted_wsorted; auto.
+        - apply (const_stamp_wsorted (fst v)). apply (sub_Forall _ _ _ (sub_filter _ _)). apply Bi_stamp.
+        - intros x y Hx Hy. apply filter_In in Hx, Hy. destruct Hx as [Hx _], Hy as [Hy _].
+          pose proof (Bi_stamp v) as Hb. rewrite Forall_forall in Hb. rewrite (Hb y Hy).
+          apply (hist_rows_le h); auto. }
+      rewrite (ssort_id _ Hw). destruct (drop_repeats_ok _ Hw) as [A B]. split; auto.
+      eapply same_reads_trans; [exact B|]. apply same_reads_app; auto.
+    + intros r Hr. apply In_bi_merge in Hr. rewrite flat_map_app. simpl. rewrite app_nil_r.
+      apply in_app_iff in Hr. apply in_app_iff. destruct Hr; auto.
+Qed.
+
+(* ------------------------------------------------------------ the property *)
+Lemma latest_le_has T h d :
+  latest_le T h d = if has T (pubs h) d then Some (lastv None (filter (le_stamp T) (pubs h d))) else None.
+Proof. unfold latest_le, has. destruct (filter (le_stamp T) (pubs h d)); reflexivity. Qed.
+Lemma spec_read_map T h :
+  spec_read T h = map (fun d => (d, lastv None (filter (le_stamp T) (pubs h d)))) (filter (has T (pubs h)) (hist_dates h)).
+Proof.
+  unfold spec_read. induction (hist_dates h) as [|d L IH]; simpl; auto.
+  rewrite latest_le_has. destruct (has T (pubs h) d); simpl; rewrite IH; reflexivity.
+Qed.
+Lemma spec_first_map T h :
+  spec_first T h = map (fun d => (d, firstval (pubs h d))) (filter (has T (pubs h)) (hist_dates h)).
+Proof.
+  unfold spec_first. induction (hist_dates h) as [|d L IH]; simpl; auto.
+  rewrite latest_le_has. destruct (has T (pubs h) d); simpl; rewrite IH; reflexivity.
+Qed.
+Lemma hist_dates_complete h d : pubs h d <> [] -> In d (hist_dates h).
+Proof. intros H. unfold hist_dates. rewrite sort_uniq_In. apply in_map_rd_iff. exact H. Qed.
+
+Theorem read_is_latest h T : stamps_nondecreasing h -> series_ok h ->
+  bi_read (store_of h) (Some T) (-1) = spec_read T h /\ bi_read (store_of h) (Some T) 0 = spec_first T h.
+Proof.
+  intros Hs Hok. destruct (store_invariant h Hs Hok) as [Hinv _].
+  rewrite spec_read_map, spec_first_map. apply read_general.
+  - intros d; apply Hinv.
+  - intros d; apply Hinv.
+  - intros d; apply pubs_wsorted; auto.
+  - apply sort_uniq_zs.
+  - intros d; apply hist_dates_complete.
+Qed.
+
+Lemma bi_read_none st n T : Forall (fun r => rs r <= T) st -> bi_read st None n = bi_read st (Some T) n.
+Proof.
+  intros H. unfold bi_read. rewrite filter_true; auto. eapply Forall_impl; [|exact H]. unfold le_stamp; simpl; intros; lia.
+Qed.
+
+(* no look-ahead *)
+Lemma hist_le_rows T h : flat_map Bi (hist_le T h) = filter (le_stamp T) (flat_map Bi h).
+Proof.
+  induction h as [|v h IH]; simpl; auto. rewrite filter_app, <- IH. pose proof (Bi_stamp v) as Hs.
+  destruct (fst v <=? T) eqn:E; simpl.
+  - f_equal. symmetry. apply filter_true. eapply Forall_impl; [|exact Hs]. unfold le_stamp; simpl; intros; lia.
+  - rewrite filter_false; auto. eapply Forall_impl; [|exact Hs]. unfold le_stamp; simpl; intros; lia.
+Qed.
+Lemma pubs_hist_le T h d : pubs (hist_le T h) d = filter (le_stamp T) (pubs h d).
+Proof. unfold pubs. rewrite hist_le_rows. apply filter_comm. Qed.
+Lemma nondecr_filter (P : version -> bool) h : stamps_nondecreasing h -> stamps_nondecreasing (filter P h).
+Proof.
+  induction h as [|v h IH]; simpl; auto. intros [H1 H2]. destruct (P v); simpl; auto. split; auto.
+  apply (sub_Forall _ _ _ (sub_filter P h)); auto.
+Qed.
+Lemma series_ok_filter (P : version -> bool) h : series_ok h -> series_ok (filter P h).
+Proof. unfold series_ok. apply sub_Forall. apply sub_filter. Qed.
+Lemma fle_idem T (l : list row) : filter (le_stamp T) (filter (le_stamp T) l) = filter (le_stamp T) l.
+Proof. apply filter_true. apply Forall_forall. intros x Hx. apply filter_In in Hx. tauto. Qed.
+Lemma firstval_fle T p : wsorted p -> filter (le_stamp T) p <> [] -> firstval (filter (le_stamp T) p) = firstval p.
+Proof.
+  intros Hw Hne. destruct p as [|r p]; auto.
+  assert (HrT : rs r <= T).
+  { destruct (fle_ne_witness _ _ Hne) as [x [Hx Hle]]. pose proof (wsorted_hd_min r p x Hw Hx). lia. }
+  assert (E : filter (le_stamp T) (r :: p) = r :: filter (le_stamp T) p).
+  { cbn [filter]. unfold le_stamp at 1. replace (rs r <=? T) with true by lia. reflexivity. }
+  rewrite E. unfold firstval. rewrite <- E.
+  rewrite filter_comm. f_equal. apply filter_true. apply Forall_forall. intros x Hx. apply filter_In in Hx.
+  unfold le_stamp in *. lia.
+Qed.
+Lemma filter_has_eq T p1 p2 ds1 ds2 : zs ds1 -> zs ds2 ->
+  (forall d, p1 d <> [] -> In d ds1) -> (forall d, p2 d <> [] -> In d ds2) ->
+  (forall d, has T p1 d = has T p2 d) -> filter (has T p1) ds1 = filter (has T p2) ds2.
+Proof.
+  intros Z1 Z2 C1 C2 Hh. apply zs_unique.
+  - eapply sub_zs; [apply sub_filter|auto].
+  - eapply sub_zs; [apply sub_filter|auto].
+  - intros d. rewrite !filter_In. rewrite <- Hh. split; intros [_ Hd]; split; auto.
+    + apply C2. intros Hn. rewrite Hh in Hd. apply has_true in Hd. rewrite Hn in Hd. auto.
+    + apply C1. intros Hn. apply has_true in Hd. rewrite Hn in Hd. auto.
+Qed.
+Theorem no_lookahead h T : stamps_nondecreasing h -> series_ok h ->
+  bi_read (store_of h) (Some T) (-1) = bi_read (store_of (hist_le T h)) (Some T) (-1) /\
+  bi_read (store_of h) (Some T) 0 = bi_read (store_of (hist_le T h)) (Some T) 0.
+Proof.
+  intros Hs Hok.
+  destruct (read_is_latest h T Hs Hok) as [A1 A0].
+  destruct (read_is_latest (hist_le T h) T (nondecr_filter _ _ Hs) (series_ok_filter _ _ Hok)) as [B1 B0].
+  rewrite A1, A0, B1, B0, !spec_read_map, !spec_first_map.
+  assert (Hh : forall d, has T (pubs h) d = has T (pubs (hist_le T h)) d).
+  { intros d. unfold has. rewrite pubs_hist_le, fle_idem. reflexivity. }
+  rewrite (filter_has_eq T (pubs h) (pubs (hist_le T h)) (hist_dates h) (hist_dates (hist_le T h)));
+    try apply sort_uniq_zs; try (intros d; apply hist_dates_complete); auto.
+  split; apply map_ext_in; intros d Hd; f_equal.
+  - rewrite pubs_hist_le, fle_idem. reflexivity.
+  - apply filter_In in Hd. destruct Hd as [_ Hd]. rewrite <- Hh in Hd. apply has_true in Hd.
+    rewrite pubs_hist_le. symmetry. apply firstval_fle; auto. apply pubs_wsorted; auto.
+Qed.
+
+(* ------------------------------------------------------------ re-merging a version that is in the store *)
+Lemma ssort_snoc q r : wsorted q ->
+  ssort (q ++ [r]) = filter (le_stamp (rs r)) q ++ r :: filter (fun x => negb (le_stamp (rs r) x)) q.
+Proof.
+  unfold ssort. rewrite fold_right_app. change (fold_right insert [] [r]) with [r].
+  induction q as [|a q IH]; [reflexivity|]. intros [H1 H2]. cbn [fold_right]. rewrite IH by auto. cbn [filter].
+  destruct (le_stamp (rs r) a) eqn:E; unfold le_stamp in E; cbn [negb].
+  - apply insert_head. apply Forall_app. split.
+    + apply (sub_Forall _ _ _ (sub_filter _ q)); auto.
+    + constructor; [lia|]. apply (sub_Forall _ _ _ (sub_filter _ q)); auto.
+  - assert (HF : Forall (fun y => le_stamp (rs r) y = false) q).
+    { eapply Forall_impl; [|exact H1]. unfold le_stamp; simpl; intros; lia. }
+    rewrite (filter_false _ _ HF).
+    rewrite (filter_true (fun x => negb (le_stamp (rs r) x)) q) by (eapply Forall_impl; [|exact HF]; simpl; intros x ->; auto).
+    simpl. replace (rs a <=? rs r) with false by lia. f_equal. apply insert_head; auto.
+Qed.
+Lemma ssorted_fle_last q r : ssorted q -> In r q -> exists A, filter (le_stamp (rs r)) q = A ++ [r].
+Proof.
+  induction q as [|a q IH]; [simpl; tauto|]. intros Hs [->|Hin].
+  - exists []. apply ssorted_fle_hd; auto.
+  - destruct Hs as [HF Hs]. destruct (IH Hs Hin) as [A HA]. exists (a :: A). cbn [filter]. rewrite HA.
+    rewrite Forall_forall in HF. apply HF in Hin. unfold le_stamp at 1. replace (rs a <=? rs r) with true by lia. reflexivity.
+Qed.
+Lemma same_reads_refl c : same_reads c c.
+Proof. intros T; split; [tauto|reflexivity]. Qed.
+Lemma same_reads_dup c r : ssorted c -> In r c -> same_reads (ssort (c ++ [r])) c.
+Proof.
+  intros Hs Hin T. rewrite filter_ssort, filter_app. cbn [filter].
+  assert (Hq : ssorted (filter (le_stamp T) c)) by (eapply sub_ssorted; [apply sub_filter|auto]).
+  destruct (le_stamp T r) eqn:E.
+  - assert (Hrq : In r (filter (le_stamp T) c)) by (apply filter_In; auto).
+    set (q := filter (le_stamp T) c) in *.
+    rewrite ssort_snoc by (apply ssorted_wsorted; auto).
+    destruct (ssorted_fle_last q r Hq Hrq) as [A HA].
+    pose proof (wsorted_split (rs r) q (ssorted_wsorted _ Hq)) as Hsplit.
+    set (F := filter (le_stamp (rs r)) q) in *. set (G := filter (fun x => negb (le_stamp (rs r) x)) q) in *.
+    split.
+    + split; intros HH; exfalso.
+      * rewrite HA in HH. destruct A; discriminate.
+      * rewrite HH in Hrq. destruct Hrq.
+    + transitivity (lastv None (F ++ G)); [|rewrite <- Hsplit; reflexivity].
+      rewrite !lastv_app. rewrite HA, lastv_app. rewrite (lastv_cons _ r G). f_equal.
+      unfold lastv at 1 3. simpl. destruct (rv r); reflexivity.
+  - rewrite app_nil_r. rewrite ssort_id by (apply ssorted_wsorted; auto). split; [tauto|reflexivity].
+Qed.
+Theorem remerge_reads h v T : stamps_nondecreasing h -> series_ok h -> NoDup (map fst (snd v)) ->
+  (forall r, In r (Bi v) -> In r (store_of h)) ->
+  bi_read (bi_merge (store_of h) (Bi v)) (Some T) (-1) = bi_read (store_of h) (Some T) (-1) /\
+  bi_read (bi_merge (store_of h) (Bi v)) (Some T) 0 = bi_read (store_of h) (Some T) 0.
+Proof.
+  intros Hs Hok Hnd Hsub. destruct (store_invariant h Hs Hok) as [Hinv _].
+  set (st := store_of h) in *. set (ds := sort_uniq (map rd st)).
+  assert (Hds : forall d, col d st <> [] -> In d ds) by (intros d Hd; unfold ds; rewrite sort_uniq_In; apply in_map_rd_iff; auto).
+  assert (Hw : forall d, wsorted (col d st)) by (intros d; apply ssorted_wsorted; apply Hinv).
+  destruct (read_general st T (fun d => col d st) ds) as [A1 A0]; auto; try apply sort_uniq_zs.
+  { intros d; apply Hinv. } { intros d; apply same_reads_refl. }
+  assert (Hnew : forall d, colinv (col d (bi_merge st (Bi v))) /\ same_reads (col d (bi_merge st (Bi v))) (col d st)).
+  { intros d. pose proof (col_Bi_len d v Hnd) as Hlen. rewrite col_bi_merge by auto.
+    destruct (Hinv d) as [[Hss Hnp] _].
+    destruct (col d (Bi v)) as [|r [|r2 n]] eqn:En.
+    - rewrite app_nil_r, ssort_id by auto. apply drop_repeats_ok; auto.
+    - assert (Hr : In r (col d st)).
+      { assert (Hr : In r (col d (Bi v))) by (rewrite En; left; auto). unfold col in *. apply filter_In in Hr.
+        apply filter_In. split; [apply Hsub|]; tauto. }
+      destruct (drop_repeats_ok (ssort (col d st ++ [r])) (ssort_wsorted _)) as [B1 B2]. split; auto.
+      eapply same_reads_trans; [exact B2|]. apply same_reads_dup; auto.
+    - simpl in Hlen. lia. }
+  destruct (read_general (bi_merge st (Bi v)) T (fun d => col d st) ds) as [B1 B0]; auto; try apply sort_uniq_zs.
+  { intros d; apply Hnew. } { intros d; apply Hnew. }
+  rewrite A1, A0, B1, B0. auto.
+Qed.
+
+(* re-merging the most recent version *)
+Lemma nondecr_snoc_intro h v : stamps_nondecreasing h -> Forall (fun w => fst w <= fst v) h -> stamps_nondecreasing (h ++ [v]).
+Proof.
+  induction h as [|a h IH]; simpl; auto. intros [H1 H2] HF. inversion HF; subst. split; auto.
+  apply Forall_app; split; auto.
+Qed.
+Lemma same_reads_dup_tail P n : (length n <= 1)%nat -> same_reads ((P ++ n) ++ n) (P ++ n).
+Proof.
+  intros Hl T. destruct n as [|r [|r2 n]]; [rewrite !app_nil_r; split; [tauto|reflexivity]| |simpl in Hl; lia].
+  rewrite !filter_app. cbn [filter]. destruct (le_stamp T r).
+  - split.
+    + split; intros HH; exfalso; apply app_eq_nil in HH; destruct HH as [_ HH]; discriminate.
+    + rewrite !lastv_app. unfold lastv at 1 2 4. simpl. destruct (rv r); reflexivity.
+  - rewrite !app_nil_r. split; [tauto|reflexivity].
+Qed.
+Theorem remerge_last h v T : stamps_nondecreasing (h ++ [v]) -> series_ok (h ++ [v]) ->
+  bi_read (bi_merge (store_of (h ++ [v])) (Bi v)) (Some T) (-1) = bi_read (store_of (h ++ [v])) (Some T) (-1) /\
+  bi_read (bi_merge (store_of (h ++ [v])) (Bi v)) (Some T) 0 = bi_read (store_of (h ++ [v])) (Some T) 0.
+Proof.
+  intros Hs Hok. rewrite <- (store_snoc (h ++ [v]) v).
+  assert (Hs2 : stamps_nondecreasing ((h ++ [v]) ++ [v])).
+  { apply nondecr_snoc_intro; [exact Hs|]. destruct (nondecr_snoc _ _ Hs) as [_ HF]. apply Forall_app; split; auto. constructor; [lia|constructor]. }
+  assert (Hnd : NoDup (map fst (snd v))).
+  { unfold series_ok in Hok. apply Forall_app in Hok. destruct Hok as [_ Hv]. inversion Hv; auto. }
+  assert (Hok2 : series_ok ((h ++ [v]) ++ [v])) by (apply Forall_app; split; auto).
+  destruct (store_invariant _ Hs2 Hok2) as [Hinv _].
+  destruct (read_is_latest (h ++ [v]) T Hs Hok) as [A1 A0]. rewrite A1, A0, spec_read_map, spec_first_map.
+  apply read_general.
+  - intros d; apply Hinv.
+  - intros d. eapply same_reads_trans; [apply Hinv|]. rewrite (pubs_snoc (h ++ [v])), pubs_snoc.
+    apply same_reads_dup_tail. apply col_Bi_len; auto.
+  - intros d; apply pubs_wsorted; auto.
+  - apply sort_uniq_zs.
+  - intros d; apply hist_dates_complete.
+Qed.
+
+(* what the spec's value is: the last non-NaN publication in merge order, which (stamps
+   non-decreasing) carries the largest stamp <= T and was merged last among equal stamps *)
+Lemma wsorted_app_inv a b : wsorted (a ++ b) -> wsorted a /\ wsorted b /\ (forall x y, In x a -> In y b -> rs x <= rs y).
+Proof.
+  induction a as [|r a IH]; simpl; [tauto|]. intros [H1 H2]. destruct (IH H2) as [A [B C]].
+  apply Forall_app in H1. destruct H1 as [H1 H3]. repeat split; auto.
+  intros x y [->|Hx] Hy; auto. rewrite Forall_forall in H3; auto.
+Qed.
+Lemma lastv_decompose q x : wsorted q -> lastv None q = Some x ->
+  exists p1 r p2, q = p1 ++ r :: p2 /\ rv r = Some x /\ Forall (fun y => rv y = None) p2 /\ Forall (fun y => rs y <= rs r) p1.
+Proof.
+  induction q as [|y q IH] using rev_ind; [discriminate|]. intros Hw Hl. rewrite lastv_app in Hl.
+  destruct (wsorted_app_inv _ _ Hw) as [Hq [_ Hc]]. unfold lastv at 1 in Hl. simpl in Hl. destruct (rv y) eqn:E.
+  - exists q, y, []. simpl in Hl. repeat split; auto; [congruence|]. apply Forall_forall. intros w Hw0. apply Hc; simpl; auto.
+  - simpl in Hl. destruct (IH Hq Hl) as [p1 [r [p2 [-> [H1 [H2 H3]]]]]]. exists p1, r, (p2 ++ [y]).
+    rewrite <- app_assoc. repeat split; auto. apply Forall_app; split; auto.
+Qed.
+Theorem latest_characterised T h d x : stamps_nondecreasing h -> latest_le T h d = Some (Some x) ->
+  exists p1 r p2, filter (le_stamp T) (pubs h d) = p1 ++ r :: p2 /\ rv r = Some x /\ rs r <= T /\
+    Forall (fun y => rv y = None) p2 /\ Forall (fun y => rs y <= rs r) p1.
+Proof.
+  intros Hs Hl. rewrite latest_le_has in Hl. destruct (has T (pubs h) d); [|discriminate].
+  assert (Hl' : lastv None (filter (le_stamp T) (pubs h d)) = Some x) by congruence. clear Hl.
+  assert (Hw : wsorted (filter (le_stamp T) (pubs h d))) by (eapply sub_wsorted; [apply sub_filter|apply pubs_wsorted; auto]).
+  destruct (lastv_decompose _ x Hw Hl') as [p1 [r [p2 [E [H1 [H2 H3]]]]]]. exists p1, r, p2. repeat split; auto.
+  assert (Hr : In r (filter (le_stamp T) (pubs h d))) by (rewrite E; apply in_elt).
+  apply filter_In in Hr. unfold le_stamp in Hr. destruct Hr as [_ Hr]. lia.
+Qed.
+
+(* asof=None reads like any T at or after every stamp *)
+Lemma read_none_is_latest h T : stamps_nondecreasing h -> series_ok h ->
+  Forall (fun v => fst v <= T) h -> bi_read (store_of h) None (-1) = spec_read T h.
+Proof.
+  intros H1 H2 H3. rewrite (bi_read_none _ _ T).
+  - exact (proj1 (read_is_latest h T H1 H2)).
+  - apply Forall_forall. intros r Hr. apply (hist_rows_le h T H3). apply (proj2 (store_invariant h H1 H2)); exact Hr.
 Qed.
